@@ -271,7 +271,8 @@ Example C11r_copy_aht_nonvacuous :
   (exists t t', parse ex_res1 = Some (Ok t) /\ copy t = Some t' /\ regen_ok t' = true) /\
   covered TAht ex_res3.
 Proof.
-  split; [|cover]. eexists. eexists. split; [vm_compute; reflexivity|]. split; vm_compute; reflexivity.
+  split; [|cover]. eexists. eexists. split; [vm_compute; reflexivity|]. split; [vm_compute; reflexivity|].
+  vm_compute. reflexivity.
 Qed.
 
 (* the guard's witnesses are outside, the hypotheses of the statements hold of the examples *)
